@@ -269,6 +269,7 @@ type env struct {
 	db     state.Database
 	hs     map[uint64]*state.StateDB
 	last   map[uint64][3]common.Hash
+	hist   map[uint64][][3]common.Hash // every Commit of a handle, oldest first
 	seen   [3]map[common.Hash]uint64
 	copies map[int]copyInfo // op index -> state of the original when it was copied
 	cold   []string         // cold-reopen failures (oracle only)
@@ -281,7 +282,7 @@ func newEnv() *env {
 	if err != nil {
 		panic(err)
 	}
-	e := &env{disk: disk, db: db, hs: map[uint64]*state.StateDB{0: st}, last: map[uint64][3]common.Hash{}, copies: map[int]copyInfo{}}
+	e := &env{disk: disk, db: db, hs: map[uint64]*state.StateDB{0: st}, last: map[uint64][3]common.Hash{}, hist: map[uint64][][3]common.Hash{}, copies: map[int]copyInfo{}}
 	for i := range e.seen {
 		e.seen[i] = map[common.Hash]uint64{}
 	}
@@ -462,6 +463,7 @@ func (e *env) exec(i int, o Op) Obs {
 			return panicObs
 		}
 		e.last[o.H] = r
+		e.hist[o.H] = append(e.hist[o.H], r)
 		return e.showRoots(r)
 	case "roots":
 		if st == nil {
@@ -478,8 +480,14 @@ func (e *env) exec(i int, o Op) Obs {
 			return panicObs
 		}
 		return out
-	case "reopen":
+	case "reopen", "reopenat":
 		r, ok := e.last[o.H]
+		if o.K == "reopenat" {
+			ok = o.B < uint64(len(e.hist[o.H]))
+			if ok {
+				r = e.hist[o.H][o.B]
+			}
+		}
 		if !ok {
 			return out
 		}
@@ -737,6 +745,8 @@ func mopCoq(o Op) string {
 		return fmt.Sprintf("MCopy %d %d", o.H, o.H2)
 	case "reopen":
 		return fmt.Sprintf("MReopen %d %d", o.H, o.H2)
+	case "reopenat":
+		return fmt.Sprintf("MReopenAt %d %d %d", o.H, o.B, o.H2)
 	case "reader":
 		return fmt.Sprintf("MReader %d", o.H)
 	case "view":
@@ -882,7 +892,7 @@ func runHistory(h *History) *runResult {
 			ci.MidTx, ci.DirtyDlgs, ci.PendingDirty = ci.MidTx || pi.MidTx, ci.DirtyDlgs || pi.DirtyDlgs, ci.PendingDirty || pi.PendingDirty
 			e.copies[i] = ci
 			origin[o.H2] = i
-		case "reopen":
+		case "reopen", "reopenat":
 			if _, ok := e.last[o.H]; ok {
 				origin[o.H2] = origin[o.H] // what the commit lost stays lost
 			}
@@ -937,7 +947,11 @@ func runHistory(h *History) *runResult {
 			if len(y.L) == 3 {
 				want := ol(y.L[1].L[0], y.L[1].L[2])
 				if d := diffObs(x, want); d != "" {
-					attribute(ci, a.Why, fmt.Sprintf("outputs %d and %d differ at %s", a.I, a.J, d))
+					if a.Only == "generic" {
+						add(a.Why, fmt.Sprintf("outputs %d and %d differ at %s", a.I, a.J, d))
+					} else {
+						attribute(ci, a.Why, fmt.Sprintf("outputs %d and %d differ at %s", a.I, a.J, d))
+					}
 				}
 			}
 		}
@@ -1000,7 +1014,7 @@ func (g *genr) do(o Op) int {
 	case "copy":
 		g.removed[o.H2] = g.removed[o.H]
 		g.origin[o.H2] = i
-	case "reopen":
+	case "reopen", "reopenat":
 		g.removed[o.H2] = 0
 		g.origin[o.H2] = g.origin[o.H]
 	}
@@ -1707,24 +1721,105 @@ func (g *genr) tBoth() {
 		})
 }
 
+// tLong: one StateDB object lives across several Commits on the shared Database (its live
+// tries sit in the Database's trie cache and keep changing); at random points ANY earlier
+// committed root triple is reopened on the same Database and must show what the state
+// showed at that commit (also through a brand-new Database over the same disk, see exec),
+// and IntermediateRoot of the untouched reopened state must return the roots it was opened from.
+func (g *genr) tLong() {
+	type cm struct{ roots, view int }
+	var commits []cm
+	owners := []uint64{0}
+	if g.r.Chance(30) {
+		g.prefix(0, g.r.Heavy(12))
+	}
+	rounds := 2 + g.r.Intn(7)
+	for rd := 0; rd < rounds; rd++ {
+		n := 1 + g.r.Intn(5)
+		for i := 0; i < n; i++ {
+			if g.r.Chance(35) {
+				g.writeVal(0)
+			} else {
+				g.write(0)
+			}
+			if g.r.Chance(10) {
+				g.do(Op{K: "finalise", H: 0, Del: g.del()})
+			}
+		}
+		if g.r.Chance(25) {
+			g.do(Op{K: "iroot", H: 0, Del: g.del()}) // written into the live tries without a Commit
+		}
+		if rd == rounds-1 && g.r.Bool() {
+			// leave the owner changed but uncommitted
+			if g.r.Bool() {
+				g.do(Op{K: "iroot", H: 0, Del: true})
+			}
+		} else {
+			c := g.do(Op{K: "commit", H: 0, Del: g.del()})
+			v := g.do(Op{K: "view", H: 0})
+			commits = append(commits, cm{c, v})
+		}
+		if g.r.Chance(20) && len(owners) < 3 {
+			// another StateDB commits through the same cache
+			c := g.fresh()
+			g.do(Op{K: "copy", H: 0, H2: c})
+			g.write(c)
+			g.do(Op{K: "commit", H: c, Del: true})
+			owners = append(owners, c)
+		}
+		for len(commits) > 0 && g.r.Chance(60) {
+			k := g.r.Intn(len(commits))
+			if g.r.Chance(40) {
+				k = len(commits) - 1 - g.r.Intn(minInt(len(commits), 3)) // recent ones are still cached
+			}
+			h2 := g.fresh()
+			g.do(Op{K: "reopenat", H: 0, B: uint64(k), H2: h2})
+			j := g.do(Op{K: "view", H: h2})
+			g.h.Asserts = append(g.h.Asserts, Assert{Kind: "eqcontent", I: commits[k].view, J: j, Copy: -1,
+				Why: "a committed state reopened later from its roots differs from what it was at that commit", Only: "generic"})
+			ir := g.do(Op{K: "iroot", H: h2, Del: g.r.Bool()})
+			g.h.Asserts = append(g.h.Asserts, Assert{Kind: "eqroots", I: commits[k].roots, J: ir, Copy: -1,
+				Why: "IntermediateRoot of an untouched reopened state differs from the roots it was opened from", Only: "generic"})
+			if k == len(commits)-1 && g.r.Bool() {
+				rdr := g.do(Op{K: "reader", H: 0})
+				g.h.Asserts = append(g.h.Asserts, Assert{Kind: "eqreader", I: rdr, J: commits[k].view, Copy: -1,
+					Why: "the validator reader opened later from a committed validator root differs from the state at that commit", Only: "generic"})
+			}
+			if g.r.Chance(50) {
+				break
+			}
+		}
+	}
+}
+
+func minInt(a, b int) int {
+	if a < b {
+		return a
+	}
+	return b
+}
+
 func genHistory(r *vf.Rng, res *vf.Result) *History {
 	g := newGen(r, res)
 	switch k := r.Intn(100); {
-	case k < 28:
+	case k < 24:
 		g.h.Comment = "walk"
 		g.tWalk()
-	case k < 50:
+	case k < 42:
 		g.h.Comment = "perm"
 		g.tPerm()
-	case k < 70:
+	case k < 60:
 		g.h.Comment = "copy"
 		g.tCopy()
-	case k < 82:
+	case k < 70:
 		g.h.Comment = "indep"
 		g.tIndep()
-	default:
+	case k < 85:
 		g.h.Comment = "both"
 		g.tBoth()
+	default:
+		g.h.Comment = "long"
+		g.tLong()
 	}
 	res.Count("template_" + g.h.Comment)
 	return g.h
@@ -1820,7 +1915,7 @@ func gen(seed uint64, n int, outDir, corpusDir string) {
 			switch o.K {
 			case "iroot", "commit":
 				flushes++
-			case "copy", "reopen":
+			case "copy", "reopen", "reopenat":
 				structural++
 			}
 		}
@@ -1854,7 +1949,7 @@ func gen(seed uint64, n int, outDir, corpusDir string) {
 	vf.WriteFile(filepath.Join(outDir, "Cases.v"), sb.String())
 	res.Cases = count
 	res.Distinct = len(distinct)
-	res.Rule = "a case is one history over several StateDB handles sharing a database: random writes (accounts, storage, code, delegation lists, validators, statistics, withdraw queue, staking records, pending relationships) with Finalise/IntermediateRoot/Commit at random points and both deleteEmptyObjects flags; templates: random walk, the same cell writes permuted and regrouped on handles reopened from one commit, copy at a chosen point (inside a transaction, after Finalise, after IntermediateRoot, after Commit) followed by the same suffix on both sides, writes to one side of a copy, writes to BOTH sides of a copy, interleaved (appends/removals on the delegation list of one live delegator, or any writes: validators, delegations, withdraw queue, staking records, accounts), each side against an unshared twin reopened from a commit; every call's result (root numbers, full reads of all observed addresses) is compared with the model; non-trivial = has a flush and a copy or reopen; distinct by full history"
+	res.Rule = "a case is one history over several StateDB handles sharing a database: random writes (accounts, storage, code, delegation lists, validators, statistics, withdraw queue, staking records, pending relationships) with Finalise/IntermediateRoot/Commit at random points and both deleteEmptyObjects flags; templates: random walk, the same cell writes permuted and regrouped on handles reopened from one commit, copy at a chosen point (inside a transaction, after Finalise, after IntermediateRoot, after Commit) followed by the same suffix on both sides, writes to one side of a copy, writes to BOTH sides of a copy, interleaved (appends/removals on the delegation list of one live delegator, or any writes: validators, delegations, withdraw queue, staking records, accounts), each side against an unshared twin reopened from a commit; one StateDB living across several Commits on the shared Database with ANY earlier committed roots reopened later (state.New and NewVldReader through the Database's trie cache, and through a new Database over the same disk) and IntermediateRoot of the reopened state; every call's result (root numbers, full reads of all observed addresses) is compared with the model; non-trivial = has a flush and a copy or reopen; distinct by full history"
 	res.Write(filepath.Join(outDir, "result.json"))
 }
 
